@@ -1338,15 +1338,18 @@ class StTr:
 
     # --- loops
     def live_after(self, rest):
-        """python names (and 'self') that the statements after a loop, or whatever follows them, may read"""
-        live = set(self.live_end)
+        """python names (and 'self') that the statements after a loop, or whatever follows them, may read before
+        re-assigning them (a plain `x = …` at the top level of `rest` ends the life of the old `x`)"""
+        live, killed = set(), set()
         for st in rest:
             for n in ast.walk(st):
-                if isinstance(n, ast.Name) and (isinstance(n.ctx, ast.Load) or n.id == "self"):
+                if isinstance(n, ast.Name) and (isinstance(n.ctx, ast.Load) or n.id == "self") and n.id not in killed:
                     live.add(n.id)
-                elif isinstance(n, ast.AugAssign) and isinstance(n.target, ast.Name):
+                elif isinstance(n, ast.AugAssign) and isinstance(n.target, ast.Name) and n.target.id not in killed:
                     live.add(n.target.id)
-        return live
+            if isinstance(st, ast.Assign) and len(st.targets) == 1 and isinstance(st.targets[0], ast.Name):
+                killed.add(st.targets[0].id)
+        return live | {n for n in self.live_end if n not in killed}
 
     def loop_name(self):
         n = len([a for a in self.aux if a[0] == "loop"])
@@ -2089,6 +2092,44 @@ TARGETS += [
                     "return_counts=True)` of labels `0 … c-1` gives `(range c, sizes)`; the result is the model's `restrict D`")]),
 ]
 
+# ---- persim/landscapes/approximate.py, tools.py  ->  Model/Approx.lean (C08)
+APX_VARS = ("[Add α] [Sub α] [Mul α] [Div α] [Neg α] [Zero α] [NatCast α] [LT α]\n"
+            "  [DecidableLT α] [LE α] [DecidableLE α] [Max α] [Min α] [DecidableEq α]")
+ODGM = Lst(Pair(OA, OA))
+APX = dict(file="approx", variables=APX_VARS, err="Err", local_types={"j": N})
+APX_SKELETON = None      # filled below from the source text it was reviewed against
+
+TARGETS += [
+    T(APX, func="PersLandscapeApprox.compute_landscape", lean="ramps", region="range_in",
+      first="j = 0", last="for _ in range(mid_pt + 1, ind_in_Wd):", count=4, pyparams=["self", "verbose"],
+      params=[("step", A), ("ind_in_Wb", N), ("ind_in_Wd", N), ("mid_pt", Z), ("W", LLA)],
+      ret=LLA, ret_name="W", result="List (List α)",
+      obligations=[("ramps_loop_eq", "(step : α) (ib : Nat) (l : List Nat) (j : Nat) (W : List (List α))",
+                    "ramps_loop step ib W j l =\n      (List.range l.length).foldl (fun W t => appendAt W (ib + (j + t + 1)) (((j + t + 1 : Nat) : α) * step)) W",
+                    "by\n  induction l generalizing j W with\n  | nil => rfl\n  | cons x l ih =>\n"
+                    "    simp only [ramps_loop, List.length_cons, List.range_succ_eq_map, List.foldl_cons, List.foldl_map, ih, appendAt]\n"
+                    "    simp only [Nat.add_zero, Nat.add_assoc, Nat.add_comm 1]",
+                    "the first ramp loop (`j += 1; W[ind_in_Wb + j].append(j * step)`) carries `j`; the model's fold writes `t + 1`"),
+                   ("ramps_loop_2_eq", "(step : α) (id : Nat) (l : List Nat) (j : Nat) (W : List (List α))",
+                    "ramps_loop_2 step id W j l =\n      (List.range l.length).foldl (fun W t => appendAt W (id - (j + t + 1)) (((j + t + 1 : Nat) : α) * step)) W",
+                    "by\n  have hsub : ∀ a b : Nat, ((a : Int) - (b : Int)).toNat = a - b := by omega\n"
+                    "  induction l generalizing j W with\n  | nil => rfl\n  | cons x l ih =>\n"
+                    "    simp only [ramps_loop_2, List.length_cons, List.range_succ_eq_map, List.foldl_cons, List.foldl_map, ih, appendAt, hsub]\n"
+                    "    simp only [Nat.add_zero, Nat.add_assoc, Nat.add_comm 1]",
+                    "the second ramp loop (`W[ind_in_Wd - j]`: the index is an int difference; inside the loop it is the natural one)"),
+                   ("src_ramps_eq_model", "(step : α) (ib id : Nat) (mid : Int) (W : List (List α))",
+                    "ramps step ib id mid W = rampDown step mid id (rampUp step ib mid W)",
+                    "by\n  simp only [ramps, rampUp, rampDown, ramps_loop_eq, ramps_loop_2_eq, List.length_range, Nat.zero_add]",
+                    "the two ramp loops of one bar (`j = 0` before each) are the model's `rampUp` then `rampDown`")]),
+    T(APX, func="death_vector", pyfile="persim/landscapes/tools.py", lean="death_vector", pyparams=["dgms", "hom_deg"],
+      params=[("dgms", Lst(ODGM)), ("hom_deg", N)], raises=True, ret=Lst(OA), result="Except Err (List (Option α))",
+      index_err="Err.homDeg", raises_table={"NotImplementedError": "Err.notImplemented"},
+      calls={"sorted": ("sorted_desc", "geOpt", Lst(OA))}, defaults=[("hom_deg", "0")],
+      obligations=[("src_death_vector_eq_model", "", "death_vector (α := α) = deathVector", "rfl",
+                    "`hom_deg != 0` raises NotImplementedError, `dgms[hom_deg]` (IndexError), the death column sorted "
+                    "descending (`none` = +inf first)")]),
+]
+
 FILES = {
     # key: (python source, generated Lean file, Lean namespace, imports, property, opened namespaces)
     "imager": ("persim/images.py", "SrcImager.lean", "PersimVerif.Src.images",
@@ -2100,6 +2141,8 @@ FILES = {
                 "PersimVerif.Model.PLArith", "C09", "PersimVerif.PLArith"),
     "graph": ("persim/gromov_hausdorff.py", "SrcGraph.lean", "PersimVerif.Src.gromov_hausdorff",
               "PersimVerif.Model.Graph\nimport PersimVerif.Lemmas.SrcBridgeGraph", "C17", "PersimVerif.Graph"),
+    "approx": ("persim/landscapes/approximate.py", "SrcApprox.lean", "PersimVerif.Src.landscapes_approximate",
+               "PersimVerif.Model.Approx", "C08", "PersimVerif.Approx"),
 }
 BRIDGES = {"imager": ["PersimVerif/Lemmas/SrcLib.lean", "PersimVerif/Lemmas/SrcBridgeImager.lean"],
            "landscaper": ["PersimVerif/Lemmas/SrcLib.lean", "PersimVerif/Lemmas/SrcBridgeLandscaper.lean"],
